@@ -810,6 +810,13 @@ impl<'a> Run<'a> {
         }
     }
 
+    /// After a write, every third time (always for focus C02): all seven read variants back to back on the written key.
+    fn agreement_round(&mut self, key: u64) {
+        if self.stop || self.at_deadline(key) { return; }
+        if self.cfg.hit_only && !self.readable(key) { return; }
+        if self.cfg.focus == "C02" || self.rng.chance(1, 3) { self.all_variants(key, "all seven read variants right after the write"); }
+    }
+
     fn stop_quietly(&mut self) { self.counts.inc("histories_cut_at_exact_deadline"); self.stop = true; }
 
     fn exec_held_delete(&mut self, key: u64, then: &Option<WriteOp>) {
@@ -1136,7 +1143,7 @@ impl<'a> Run<'a> {
     fn exec_step(&mut self, step: &Step) {
         self.history.push(step.to_json());
         match step {
-            Step::Write(op) => self.exec_write(op),
+            Step::Write(op) => { self.exec_write(op); self.agreement_round(op.key()); }
             Step::Read { key, variant } => {
                 if self.at_deadline(*key) { return; }
                 if self.cfg.hit_only && !self.readable(*key) { return; }
